@@ -42,7 +42,7 @@ def main():
         build = "cmake -G Ninja -S . -B _build >/dev/null && cmake --build _build 2>&1 | tail -3"
         rc, out = sh(build, wt)
         res["builds"] = rc == 0
-        rc, out = sh("ctest --test-dir _build -j8 --timeout 900 2>&1 | tail -4", wt)
+        rc, out = sh("ctest --test-dir _build -j8 --timeout 900 </dev/null 2>&1 | tail -4", wt)
         res["tests_with_change"] = "100% tests passed" in out
         demo = meta["demo_cmd"]
         rc1, out1 = sh(demo, wt, timeout=3600)
